@@ -16,6 +16,7 @@ def extra(ctx):
     import glue_checks
     glue_checks.single_suite(ctx, {'valid', 'optimal'}, [dict(max_n=4, beam=True), dict(max_n=4), dict(max_n=3, beam=True, multi=True)],
                              ctx.budget(450, 4500))
+    glue_checks.option_sequence_scenario(ctx, ctx.budget(2, 12))
     # ... and from the command line: argparse.py -> __main__.py -> read_params -> parsing.run -> print_
     import cli_common
     cli_common.cli_suite(ctx, ctx.budget(40, 400))
